@@ -838,7 +838,7 @@ def histories_for(ctx):
             if U[:4] == (3, 2, 3, 2):
                 ex += [swap_signals(h, {0: 5, 1: 2}) for h in e[::4]]
                 desc.append(f"every 4th of them over signals 5,2: {len(e[::4])}")
-    nrand = 5000 if quick else 80000
+    nrand = 5000 if quick else 60000
     rnd = [gen_program(rng, rng.choice([6, 10, 16, 24, 40])) for _ in range(nrand)]
     ncross = 1500 if quick else 10000
     rnd += [gen_cross(rng) for _ in range(ncross)]
